@@ -297,6 +297,11 @@ func (env *Env) ident(name string) Val {
 				return tr.constVal(c)
 			}
 		}
+		// a local that exists in the function but has no value at this point (e.g. a postcondition evaluated at an early
+		// return): an arbitrary value, so anything claimed about it there has to follow from the path condition alone
+		if t := tr.localType(name); t != nil {
+			return tr.freshVal(t, "undef$"+name, env.cur(), tr.rc)
+		}
 	}
 	if env.pkg != nil {
 		if obj := env.pkg.Scope().Lookup(name); obj != nil {
